@@ -53,3 +53,10 @@ MUTANTS += [
      [("src/pptx/opc/package.py", "        for n in range(len(partnames) + 1, 0, -1):", "        for n in range(len(partnames), 0, -1):")],
      "R6.2 OpcPackage.next_partname:exhaustion"),
 ]
+
+MUTANTS += [
+    ("partname-scan-by-idx", "next_partname judges a number taken by the idx of the matching part names",
+     [("src/pptx/opc/package.py", "        partnames = {p.partname for p in self.iter_parts() if p.partname.startswith(prefix)}\n        for n in range(len(partnames) + 1, 0, -1):\n            candidate_partname = tmpl % n\n            if candidate_partname not in partnames:\n                return PackURI(candidate_partname)",
+       "        partnames = [p.partname for p in self.iter_parts() if p.partname.startswith(prefix)]\n        taken = {pn.idx for pn in partnames}\n        for n in range(len(partnames) + 1, 0, -1):\n            if n not in taken:\n                return PackURI(tmpl % n)")],
+     "R6.2 OpcPackage.next_partname:projection"),
+]
